@@ -77,6 +77,7 @@ package actor
 // none to anybody else
 //@ func (*eventStream).Publish
 //@   requires eswf(es) && !held(es.mu) && ctx != nil && event != nil && es.system != nil && es.system.Context != nil
+//@   modifies gmap(told), gmap(toldn), gmap(tells)
 //@   ensures  forall p string :: gcount(tells, p) == old(gcount(tells, p)) + (old(sub(es, rtype(event), p)) ? 1 : 0)
 //@ loop (*eventStream).Publish#1
 //@   invariant forall p string :: gcount(tells, p) == old(gcount(tells, p)) + (seen(p) ? 1 : 0)
@@ -99,7 +100,7 @@ package actor
 //@ func (*killedHandler).handleRestart
 //@   requires ctxwf(h.ctx)
 //@   requires h.restarting ==> h.ctx.restarting != nil
-//@   modifies h.ctx.actor, h.ctx.behaviorStack.behaviors, h.ctx.zombie, h.ctx.restarting, h.ctx.state
+//@   modifies h.ctx.actor, h.ctx.behaviorStack.behaviors, h.ctx.zombie, h.ctx.restarting, h.ctx.state, gmap(told), gmap(toldn), gmap(tells), gmap(resumes), gmap(published)
 //@   ensures  !(old(h.shouldContinue) && old(h.restarting)) ==> h.ctx.state == old(h.ctx.state) && h.ctx.zombie == old(h.ctx.zombie) &&
 //@            forall r vivid.ActorRef, k mathint :: gcount(told, r, k) == old(gcount(told, r, k))
 // a successful restart: ONE OnLaunch, as a system message, to the restarted actor ITSELF and to nobody else
@@ -128,19 +129,40 @@ package actor
 //@ func (*supervisionContext).FaultStack
 //@   trusted
 
-// resume broadcast: only mailbox commands (system messages) are sent, and every target of this context gets one
+// resume broadcast along the escalation chain c -> c.sub -> c.sub.sub ...: every target recorded at every level
+// gets the message; nothing of another kind is sent. BOUNDED: the chain walk is verified by unrolling, for
+// chains of at most three contexts (precondition chain3) - deeper chains are outside what is proved.
+//@ pure lvl1(c *supervisionContext) *supervisionContext = c.subSupervisionContext
+//@ pure lvl2(c *supervisionContext) *supervisionContext = c.subSupervisionContext.subSupervisionContext
+//@ pure chain3(c *supervisionContext) bool =
+//@     c != nil && refsNonNil(c.targets) &&
+//@     (lvl1(c) != nil ==> refsNonNil(lvl1(c).targets) &&
+//@       (lvl2(c) != nil ==> refsNonNil(lvl2(c).targets) && lvl2(c).subSupervisionContext == nil))
+//@ pure toldAll(s vivid.ActorRefs, k mathint) bool =
+//@     forall j mathint :: 0 <= j && j < len(s) ==> gcount(told, s[j], k) > old(gcount(told, s[j], k))
 //@ func (*supervisionContext).broadcastAllTargets
-//@   trusted
-//@   requires ctx != nil && refsNonNil(c.targets)
+//@   requires ctx != nil && chain3(c)
 //@   modifies gmap(told), gmap(toldn), gmap(tells)
 //@   ensures  forall r vivid.ActorRef, k mathint :: k != 2 * typetag(message) + (system ? 1 : 0) ==> gcount(told, r, k) == old(gcount(told, r, k))
 //@   ensures  forall r vivid.ActorRef, k mathint :: gcount(told, r, k) >= old(gcount(told, r, k))
-//@   ensures  forall j mathint :: 0 <= j && j < len(c.targets) ==>
-//@            gcount(told, c.targets[j], 2 * typetag(message) + (system ? 1 : 0)) > old(gcount(told, c.targets[j], 2 * typetag(message) + (system ? 1 : 0)))
+//@   ensures  toldAll(c.targets, 2 * typetag(message) + (system ? 1 : 0))
+//@   ensures  lvl1(c) != nil ==> toldAll(lvl1(c).targets, 2 * typetag(message) + (system ? 1 : 0))
+//@   ensures  lvl1(c) != nil && lvl2(c) != nil ==> toldAll(lvl2(c).targets, 2 * typetag(message) + (system ? 1 : 0))
 //@   ensures  forall k mathint :: k != 2 * typetag(message) + (system ? 1 : 0) ==> gcount(toldn, k) == old(gcount(toldn, k))
+//@ loop (*supervisionContext).broadcastAllTargets#1
+//@   unroll
+//@ loop (*supervisionContext).broadcastAllTargets#2
+//@   modifies nothing
+//@   invariant -1 <= rangeindex && rangeindex < len(current.targets)
+//@   invariant forall j mathint :: 0 <= j && j <= rangeindex ==> gcount(told, current.targets[j], 2 * typetag(message) + (system ? 1 : 0)) > old(gcount(told, current.targets[j], 2 * typetag(message) + (system ? 1 : 0)))
+//@   invariant forall r vivid.ActorRef, k mathint :: k != 2 * typetag(message) + (system ? 1 : 0) ==> gcount(told, r, k) == old(gcount(told, r, k))
+//@   invariant forall r vivid.ActorRef, k mathint :: gcount(told, r, k) >= entry(gcount(told, r, k))
+//@   invariant forall k mathint :: k != 2 * typetag(message) + (system ? 1 : 0) ==> gcount(toldn, k) == old(gcount(toldn, k))
 
 //@ func (*supervisionContext).applyDecision
 //@   requires ctxwf(ctx) && refsNonNil(targets) && ctx.parent != nil
+// the escalation chain below this context (BOUNDED: at most two lower levels, see broadcastAllTargets)
+//@   requires lvl1(c) != nil ==> refsNonNil(lvl1(c).targets) && lvl1(c) != c && (lvl2(c) != nil ==> refsNonNil(lvl2(c).targets) && lvl2(c) != c && lvl2(c).subSupervisionContext == nil)
 //@   modifies c.targets, c.decisionReason, gmap(told), gmap(toldn), gmap(tells), gmap(pauses)
 // Restart: one RestartMessage per entry of targets (system message iff not graceful), nothing of that kind to anybody else
 //@   ensures  vivid.dRestart(decision) ==> gcount(toldn, kRestart(!vivid.dGraceful(decision))) == old(gcount(toldn, kRestart(!vivid.dGraceful(decision)))) + len(targets)
@@ -160,6 +182,9 @@ package actor
 //@   ensures  vivid.dGraceful(decision) || vivid.dResume(decision) ==> forall j mathint :: 0 <= j && j < len(targets) ==>
 //@            gcount(told, targets[j], kResume()) > old(gcount(told, targets[j], kResume()))
 //@   ensures  vivid.dResume(decision) ==> forall r vivid.ActorRef, k mathint :: k != kResume() ==> gcount(told, r, k) == old(gcount(told, r, k))
+// ... and so does every target recorded by the lower levels of the escalation chain (the originally failing actors)
+//@   ensures  (vivid.dGraceful(decision) || vivid.dResume(decision)) && lvl1(c) != nil ==> toldAll(lvl1(c).targets, kResume())
+//@   ensures  (vivid.dGraceful(decision) || vivid.dResume(decision)) && lvl1(c) != nil && lvl2(c) != nil ==> toldAll(lvl2(c).targets, kResume())
 // Escalate - and every value that is none of the above ("unexpected values are treated as escalate"):
 // the supervisor pauses itself and hands ONE new supervision context to its parent; nobody else is told anything
 //@   ensures  !vivid.dRestart(decision) && !vivid.dStop(decision) && !vivid.dResume(decision) ==>
@@ -184,3 +209,135 @@ package actor
 //@   invariant forall r vivid.ActorRef, k mathint :: k != kKill(!isGraceful) ==> gcount(told, r, k) == old(gcount(told, r, k))
 //@   invariant forall r vivid.ActorRef, k mathint :: gcount(told, r, k) >= old(gcount(told, r, k))
 //@   invariant gcount(pauses, ctx.mailbox) == old(gcount(pauses, ctx.mailbox))
+
+// ---------------------------------------------------------------------------------------------
+// C06: the termination steps of the kill chain
+// ---------------------------------------------------------------------------------------------
+
+//@ ghost unregistered(ptr)
+// registry: removeActorContext releases the path (sync.Map is outside the subset: trusted contract, counted)
+//@ func (*System).removeActorContext
+//@   trusted
+//@   requires ctx != nil
+//@   ghostinc unregistered(ctx)
+
+//@ pure kKilledSys() mathint = 2 * tagof("*vivid.OnKilled") + 1
+
+// an actor is marked killed only when no child is left, and only from `killing`
+//@ func (*killedHandler).checkAndMarkKilled
+//@   requires h.ctx != nil
+//@   modifies h.shouldContinue, h.ctx.state
+//@   ensures  h.shouldContinue <==> (old(len(h.ctx.children)) == 0 && old(h.ctx.state) == 1)
+//@   ensures  h.shouldContinue ==> h.ctx.state == 2
+//@   ensures  !h.shouldContinue ==> h.ctx.state == old(h.ctx.state)
+
+//@ func (*killedHandler).prepareSelfKilledMessage
+//@   requires h.ctx != nil && h.ctx.ref != nil && h.ctx.envelop != nil
+//@   modifies h.selfKilledMessage, h.ctx.envelop, h.restarting
+//@   ensures  old(h.shouldContinue) ==> h.selfKilledMessage != nil && h.selfKilledMessage.Ref == iface(h.ctx.ref) && (h.restarting <==> h.ctx.restarting != nil)
+//@   ensures  !old(h.shouldContinue) ==> h.selfKilledMessage == old(h.selfKilledMessage) && h.restarting == old(h.restarting)
+
+// clean-up (runs only for a real termination, not for a restart): subscriptions dropped, path released,
+// ONE OnKilled (system message) per watcher entry and one to the parent, ONE ActorKilledEvent
+//@ func (*killedHandler).cleanupIfNotRestarting
+//@   requires ctxwf(h.ctx) && (h.shouldContinue ==> h.selfKilledMessage != nil)
+//@   modifies gmap(told), gmap(toldn), gmap(tells), gmap(unregistered), gmap(unsuball), gmap(published)
+//@   requires forall p string :: p in h.ctx.watchers ==> h.ctx.watchers[p] != nil
+//@   ensures  !(old(h.shouldContinue) && !old(h.restarting)) ==>
+//@            (forall r vivid.ActorRef, k mathint :: gcount(told, r, k) == old(gcount(told, r, k))) &&
+//@            gcount(unregistered, h.ctx) == old(gcount(unregistered, h.ctx)) && gcount(published, tagof("ves.ActorKilledEvent")) == old(gcount(published, tagof("ves.ActorKilledEvent")))
+//@   ensures  old(h.shouldContinue) && !old(h.restarting) ==>
+//@            gcount(unregistered, h.ctx) == old(gcount(unregistered, h.ctx)) + 1 &&
+//@            gcount(unsuball, iface(h.ctx)) == old(gcount(unsuball, iface(h.ctx))) + 1 &&
+//@            gcount(published, tagof("ves.ActorKilledEvent")) == old(gcount(published, tagof("ves.ActorKilledEvent"))) + 1
+//@   ensures  old(h.shouldContinue) && !old(h.restarting) ==>
+//@            gcount(toldn, kKilledSys()) == old(gcount(toldn, kKilledSys())) + len(h.ctx.watchers) + (h.ctx.parent != nil ? 1 : 0)
+//@   ensures  old(h.shouldContinue) && !old(h.restarting) ==> forall p string :: p in h.ctx.watchers ==>
+//@            gcount(told, h.ctx.watchers[p], kKilledSys()) > old(gcount(told, h.ctx.watchers[p], kKilledSys()))
+//@   ensures  old(h.shouldContinue) && !old(h.restarting) && h.ctx.parent != nil ==>
+//@            gcount(told, iface(h.ctx.parent), kKilledSys()) > old(gcount(told, iface(h.ctx.parent), kKilledSys()))
+//@   ensures  forall r vivid.ActorRef, k mathint :: k != kKilledSys() ==> gcount(told, r, k) == old(gcount(told, r, k))
+//@ loop (*killedHandler).cleanupIfNotRestarting#1
+//@   invariant gcount(toldn, kKilledSys()) == old(gcount(toldn, kKilledSys())) + seencount()
+//@   invariant forall p string :: seen(p) ==> p in h.ctx.watchers && gcount(told, h.ctx.watchers[p], kKilledSys()) > old(gcount(told, h.ctx.watchers[p], kKilledSys()))
+//@   invariant forall r vivid.ActorRef, k mathint :: k != kKilledSys() ==> gcount(told, r, k) == old(gcount(told, r, k))
+//@   invariant forall r vivid.ActorRef, k mathint :: gcount(told, r, k) >= old(gcount(told, r, k))
+//@   invariant gcount(unregistered, h.ctx) == old(gcount(unregistered, h.ctx)) + 1 && gcount(unsuball, iface(h.ctx)) == old(gcount(unsuball, iface(h.ctx))) + 1
+//@   invariant gcount(published, tagof("ves.ActorKilledEvent")) == old(gcount(published, tagof("ves.ActorKilledEvent")))
+
+// steps of the chain that run user code / the job scheduler: trusted frames (they tell nobody on behalf of the
+// core, do not touch the registry, and leave the core fields the later steps read alone)
+//@ func (*killedHandler).handleChildDeath
+//@   trusted
+//@   requires h.ctx != nil && h.message != nil
+//@   modifies h.ctx.children[*]
+//@   ensures  len(h.ctx.children) <= old(len(h.ctx.children))
+//@ func (*killedHandler).executeBehavior
+//@   trusted
+//@ func (*killedHandler).cleanupScheduler
+//@   trusted
+//@ func newKilledHandler
+//@   ensures result != nil && fresh(result) && result.ctx == ctx && result.message == message && !result.shouldContinue && !result.restarting && result.selfKilledMessage == nil
+
+// one call of onKilled: the registry entry is released and the termination reported AT MOST once, and only when
+// the child table is empty and the state was `killing` (or the actor is a zombie being released)
+//@ func (*Context).onKilled
+//@   requires ctxwf(c) && message != nil && c.envelop != nil
+//@   requires forall p string :: p in c.watchers ==> c.watchers[p] != nil
+//@   modifies c.children[*], c.state, c.envelop, c.actor, c.behaviorStack.behaviors, c.zombie, c.restarting, gmap(told), gmap(toldn), gmap(tells), gmap(unregistered), gmap(unsuball), gmap(published), gmap(resumes)
+//@   ensures  gcount(unregistered, c) <= old(gcount(unregistered, c)) + 1
+//@   ensures  forall r vivid.ActorRef, k mathint :: k != kKilledSys() && k != 2 * tagof("*vivid.OnLaunch") + 1 ==> gcount(told, r, k) == old(gcount(told, r, k))
+//@   ensures  forall k mathint :: k != kKilledSys() && k != 2 * tagof("*vivid.OnLaunch") + 1 ==> gcount(toldn, k) == old(gcount(toldn, k))
+//@   ensures  gcount(published, tagof("ves.ActorKilledEvent")) <= old(gcount(published, tagof("ves.ActorKilledEvent"))) + 1
+//@   ensures  !old(c.zombie) && gcount(unregistered, c) > old(gcount(unregistered, c)) ==> len(c.children) == 0 && old(c.state) == 1 && c.state == 2
+//@   ensures  !old(c.zombie) && old(c.state) != 1 ==> gcount(unregistered, c) == old(gcount(unregistered, c)) && forall r vivid.ActorRef :: gcount(told, r, kKilledSys()) == old(gcount(told, r, kKilledSys()))
+
+//@ func (*System).removeFuturesByAgentPath
+//@   trusted
+// runs the behaviour under recover; a failure may reach failed() (supervision) - that path is C08, trusted here
+//@ func (*Context).executeBehaviorWithRecovery
+//@   trusted
+
+// an actor that has been released (registry entry removed) stays released: it is not a zombie any more and it is
+// not running, so no later kill can run the clean-up again
+//@ pure watchersOK(c *Context) bool = forall p string :: p in c.watchers ==> c.watchers[p] != nil
+//@ pure released1(c *Context) bool = gcount(unregistered, c) <= 1 && (gcount(unregistered, c) == 1 ==> !c.zombie && c.state != 0)
+
+// doKill: ONE OnKill to every child, with the same poison flag, then the kill chain
+//@ func (*Context).doKill
+//@   funcspec behavior preserves ctxwf(c), watchersOK(c), c.zombie, c.state, c.restarting, c.ref, c.parent, c.system, c.options, c.mailbox, c.watchers, c.children, c.envelop, c.actor, c.behaviorStack, c.scheduler
+//@   requires ctxwf(c) && message != nil && c.envelop != nil && behavior != nil
+//@   requires watchersOK(c)
+//@   requires forall p string :: p in c.children ==> c.children[p] != nil
+//@   modifies c.children[*], c.state, c.envelop, c.actor, c.behaviorStack.behaviors, c.zombie, c.restarting, anyold, gmap(told), gmap(toldn), gmap(tells), gmap(unregistered), gmap(unsuball), gmap(published), gmap(resumes)
+//@   ensures  gcount(toldn, kKill(!message.Poison)) == old(gcount(toldn, kKill(!message.Poison))) + old(len(c.children))
+//@   ensures  forall p string :: old(p in c.children) ==> gcount(told, old(c.children[p]), kKill(!message.Poison)) > old(gcount(told, old(c.children[p]), kKill(!message.Poison)))
+//@   ensures  gcount(unregistered, c) <= old(gcount(unregistered, c)) + 1
+//@ loop (*Context).doKill#1
+//@   modifies nothing
+//@   invariant gcount(toldn, kKill(!message.Poison)) == old(gcount(toldn, kKill(!message.Poison))) + seencount()
+//@   invariant forall p string :: seen(p) ==> p in c.children && gcount(told, c.children[p], kKill(!message.Poison)) > old(gcount(told, c.children[p], kKill(!message.Poison)))
+//@   invariant forall r vivid.ActorRef, k mathint :: gcount(told, r, k) >= old(gcount(told, r, k))
+//@   invariant gcount(unregistered, c) == old(gcount(unregistered, c))
+
+// ---------------------------------------------------------------------------------------------
+// C10: references are safe to compare from anywhere - also against "no parent" (a nil *Ref inside an ActorRef)
+// ---------------------------------------------------------------------------------------------
+//@ func (*Ref).GetPath
+//@   ensures result == r.path
+//@ func (*Ref).GetAddress
+//@   ensures result == r.address
+//@ func (*Ref).Equals
+//@   ensures other == nil ==> !result
+
+// watch bookkeeping (C06): Watch / Unwatch only edit the watcher table - they tell nobody anything; in particular
+// nobody is told OnKilled here: termination is reported by the clean-up step alone
+//@ func (*Context).onWatch
+//@   requires ctxwf(c) && c.envelop != nil && envSender(c.envelop) != nil && !nilptr(envSender(c.envelop))
+//@   modifies c.watchers, c.watchers[*], gmap(published)
+//@   ensures  forall p string :: old(p in c.watchers) ==> p in c.watchers && c.watchers[p] == old(c.watchers[p])
+//@   ensures  forall p string :: p in c.watchers && !old(p in c.watchers) ==> c.watchers[p] == envSender(c.envelop)
+//@ func (*Context).onUnwatch
+//@   requires ctxwf(c) && c.envelop != nil && envSender(c.envelop) != nil && !nilptr(envSender(c.envelop))
+//@   modifies c.watchers[*], gmap(published)
+//@   ensures  forall p string :: p in c.watchers ==> old(p in c.watchers) && c.watchers[p] == old(c.watchers[p])
